@@ -140,6 +140,9 @@ func sortOf(t types.Type) *Sort {
 		for i := 0; i < u.NumFields(); i++ {
 			f := u.Field(i)
 			fs := SortOf(f.Type())
+			if est, ok := f.Type().Underlying().(*types.Struct); ok && est.NumFields() == 0 {
+				fs = SBool
+			}
 			if fs == nil {
 				// pointer / interface fields inside data structs become opaque references
 				switch f.Type().Underlying().(type) {
@@ -185,7 +188,7 @@ func ZeroOf(s *Sort) *Term {
 	case KBool:
 		return False
 	case KReal:
-		return &Term{kind: tRealLit, Name: "0.0", Sort: SReal}
+		return intern(&Term{kind: tRealLit, Name: "0.0", Sort: SReal})
 	case KUninterp:
 		switch s {
 		case SStr:
